@@ -6,6 +6,17 @@ const v2pkg = "app/core/hydra/swamp/chronicler/v2"
 
 var Checks = []CheckDef{
 	{
+		ID: "C27", Title: "Hydrex reverse index stays consistent with core data",
+		Claim:   "bounded symbolic execution of the real hydrex Save/Destroy/GetCoreData/GetIndexData against a model of the documented catalog contract of the SDK store: every sequence of up to maxCalls Save (any subset of 2 keys with SYMBOLIC values, so additions, removals and changed values all occur) and Destroy calls over 2 domains, for every map iteration order inside Save: after each call every key lookup returns exactly the domains whose current core data contains the key and every domain read returns exactly its last saved items (keys and values)",
+		Trusted: "the Hydraidego store is a harness model of the documented contract (SaveMany upserts by key, DeleteMany removes, Destroy drops, ReadMany iterates all); the SDK's reflect-based model conversion and the server are outside (C22 n/a, C06)",
+		Harnesses: []HarnessDef{
+			{Pkg: "github.com/hydraide/hydraide/sdk/go/hydraidego/v3/hydrex", Func: "VerifC27Hydrex", Quick: map[string]int{"maxCalls": 2}, Thorough: map[string]int{"maxCalls": 3}, Covers: []string{"end"}},
+		},
+		Assumptions: []string{"1 index name, 2 domains, 2 keys, 1-byte symbolic values"},
+		Stubs:       []string{"hydraidego.Hydraidego = in-harness store model"},
+		Outside:     []string{"longer histories", "store failures (errors are ignored by hydrex)"},
+	},
+	{
 		ID: "C21", Title: "Swamp settings resolve deterministically from registered patterns",
 		Claim:   "bounded symbolic execution of the real settings package: up to maxSteps register / re-register / deregister steps over overlapping patterns (exact name, realm wildcard, swamp wildcard, non-matching realm, other sanctuary) with SYMBOLIC idle timeout and write interval and either swamp type, in every order, and for EVERY map iteration order of the pattern map during lookup and during reload: the settings resolved for the swamp are those of the most specific registered matching pattern (the default when none matches), and the same again after a restart that reloads the persisted model",
 		Trusted: "json.MarshalIndent/Unmarshal are replaced by a deep copy of the settings model (the real JSON round trip runs in the native replay); map iteration order is a decision variable (up to 3 entries: every permutation)",
